@@ -331,3 +331,6 @@ brk_on("R6-1", "on-R6-1-shared-frame-loop-skips-last-frame", ["C10"],
 brk_on("R6-5", "on-R6-5-raw-emit-helper-called-from-write-bits", ["C16"],
     [("jpeg/standard/huffman_encoder.go", "	if n == 0 {\n		return nil\n	}\n", "	if n == 0 {\n		return nil\n	}\n	if n == 8 && e.nBits == 0 {\n		return e.emit(byte(bits))\n	}\n")],
     "OWNER-SINK", "HuffmanEncoder")
+brk_on("R7-2", "on-R7-2-tile-grid-loses-zero-default", ["C17"],
+    [("jpeg2000/encoder.go", "	if g.tileWidth == 0 {\n		g.tileWidth = p.Width\n	}\n", "")],
+    "DIV", "newTileGrid")
